@@ -142,11 +142,14 @@ class SyncedDict(SyncedCollection, MutableMapping):
                         self._data[key] = self._from_base(new_value, parent=self)
                     else:
                         if _sc_resolver.get_type(existing) == "SYNCEDCOLLECTION":
-                            try:
-                                existing._update(new_value)
-                                continue
-                            except ValueError:
-                                pass
+                            # None means "leave unchanged" to _update, but here
+                            # it is data: the container was replaced by null.
+                            if new_value is not None:
+                                try:
+                                    existing._update(new_value)
+                                    continue
+                                except ValueError:
+                                    pass
                         elif new_value == existing and type(new_value) is type(
                             existing
                         ):
